@@ -344,6 +344,8 @@ class Interp:
                 path = rv['path']
                 if path.endswith('RangeFrom') and vals and vals[0][0] == 'const':
                     return ('rangefrom', vals[0][1])
+                if path.endswith('RangeFrom') and vals and vals[0][0] == 'bit_as_int':
+                    return ('rangefrom_bit', vals[0][1], vals[0][2])       # `usize::from(bit)..`
                 if path == 'core::option::Option':
                     return ('some', vals[0]) if rv['vname'] == 'Some' else ('none',)
                 if path == 'core::result::Result':
@@ -474,6 +476,17 @@ class Interp:
             p.ev('next', it=it[1], n=it[2] + 1, ln=ln, fn=fn.dp, block=b)
             setd(('optbit', it[1], it[2] + 1))
             return target
+        if path in ('core::mem::take', 'core::mem::replace') and args and args[0][0] == 'ref':
+            # mem::take(&mut columns) / mem::replace(&mut columns, x): hand out the current value, leave the other behind
+            cur = p.env.get((args[0][1], args[0][2]), ('unk', 'taken'))
+            if cur[0] in ('col', 'colvec'):
+                newv = args[1] if (path.endswith('replace') and len(args) > 1) else ('unk', 'taken-out')
+                old = p.env.get((args[0][1], args[0][2]))
+                p.env[(args[0][1], args[0][2])] = newv
+                if newv[0] == 'col':
+                    self.note_col_update(p, old, newv, {'ln': ln}, fn, b)
+                setd(cur)
+                return target
         if name in ('unwrap_unchecked', 'unwrap', 'expect') and args:
             a = args[0]
             if a[0] == 'optbit':
@@ -562,6 +575,20 @@ class Interp:
                 if idx[0] == 'rangefrom':
                     setd(('col', base[1], base[2] + idx[1]))
                     return target
+                if idx[0] == 'rangefrom_bit':
+                    # columns.get_unchecked(usize::from(bit)..): skip the head column iff the bit is set
+                    truth = p.known_bit(idx[1], idx[2])
+                    branches = [truth] if truth is not None else [True, False]
+                    for tr in branches:
+                        q = p if len(branches) == 1 else p.clone()
+                        if truth is None:
+                            q.conds.append(('bit', idx[1], idx[2], tr))
+                            q.ev('branch_bit', it=idx[1], n=idx[2], value=tr, block=b, via='rangefrom')
+                        nv = ('col', base[1], base[2] + (1 if tr else 0))
+                        if dest is not None:
+                            self.assign(q, fn, frame, dest, nv, {'ln': ln}, b)
+                        self.explore(q, fn, frame, target, cont)
+                    return None
                 p.ev('col_access_dynamic', col=base[1], off=base[2], idx=idx, ln=ln, fn=fn.dp, block=b)
                 setd(('unk', 'colidx'))
                 return target
